@@ -125,6 +125,43 @@ def rejects(env):
         env.no_raise('inside the tolerances: accepted', ValueError, lambda: cv.mat2SO3(Mx, check=True))
 
 
+@obligation('C11.check.rejects_reflections', functions=[f'{CV}:mat2SO3', f'{CV}:mat2SE3', f'{CV}:from_matrix'], max_paths=64)
+def rejects_plain_reflections(env):
+    """-R for ANY rotation R (symbolic unit quaternion) is orthogonal with determinant -1: rejected by every converter without a scale"""
+    cv = env.load(CV); pp = env.load('pypose'); T = env.T
+    X = group_elem(env, 'SE3', 'X', qregimes=QREG)
+    R = S.quat_matrix(T, X[3:7])
+    O = X[0] * 0
+    F4 = T.cat([T.cat([-R, X[0:3].reshape(3, 1)], -1), T.stack([O, O, O, O + 1]).reshape(1, 4)], 0)
+    for nm, f in {'mat2SO3': lambda: cv.mat2SO3(-R, check=True), 'mat2SE3': lambda: cv.mat2SE3(F4, check=True),
+                  'from_matrix(SO3)': lambda: cv.from_matrix(-R, pp.SO3_type, check=True), 'from_matrix(SE3)': lambda: cv.from_matrix(F4, pp.SE3_type, check=True)}.items():
+        env.raises(f'{nm}: a reflection is rejected', ValueError, f)
+
+
+@obligation('C11.check.rejects_scaled_reflections', functions=[f'{CV}:mat2Sim3', f'{CV}:mat2RxSO3', f'{CV}:from_matrix'], max_paths=64)
+def rejects_reflections(env):
+    """a scaled REFLECTION s Q (Q orthogonal, det Q = -1) is orthogonal up to scale but is no scaled rotation: with check=True every
+    converter with a scale raises (it must not come back as a 'rotation' -Q with a negative scale)"""
+    cv = env.load(CV); pp = env.load('pypose'); T = env.T
+    X = group_elem(env, 'Sim3', 'X', qregimes=('generic',))
+    tx, qx, sx = S.parts('Sim3', X)
+    env.assume('scale in [1e-3, 1e3] (the property quantifier)', (sx >= (Q(1, 1000) if env.sym else 1e-3)) & (sx <= 1000))
+    # a fixed rational rotation (quaternion (1,2,2,4)/5) keeps the sign of the determinant -s^3 decidable; scale and translation symbolic
+    qx = T.tensor([Q(1, 5), Q(2, 5), Q(2, 5), Q(4, 5)]) if env.sym else T.tensor([0.2, 0.4, 0.4, 0.8], dtype=X.dtype)
+    R = S.quat_matrix(T, qx)
+    O = sx * 0
+    F4 = T.cat([T.cat([-(sx * R), tx.reshape(3, 1)], -1), T.stack([O, O, O, O + 1]).reshape(1, 4)], 0)          # [[-s R, t], [0, 1]]
+    calls = {
+        'mat2RxSO3': lambda: cv.mat2RxSO3(-(sx * R), check=True),
+        'mat2Sim3 (4x4)': lambda: cv.mat2Sim3(F4, check=True),
+        'mat2Sim3 (3x4)': lambda: cv.mat2Sim3(F4[0:3, :], check=True),
+        'from_matrix(RxSO3)': lambda: cv.from_matrix(-(sx * R), pp.RxSO3_type, check=True),
+        'from_matrix(Sim3)': lambda: cv.from_matrix(F4, pp.Sim3_type, check=True),
+    }
+    for nm, f in calls.items():
+        env.raises(f'{nm}: a scaled reflection is rejected', ValueError, f)
+
+
 @obligation('C11.check.tolerances_reach_the_rotation_check', functions=[f'{CV}:mat2SE3', f'{CV}:mat2Sim3', f'{CV}:mat2RxSO3', f'{CV}:from_matrix'], max_paths=64)
 def tol_plumbing(env):
     """the caller's check / rtol / atol are the ones the rotation check (mat2SO3, contract C11.check.rejects_non_rotations) is run with - for
@@ -202,6 +239,35 @@ def euler(env):
     env.holds('pitch in [-pi/2, pi/2]', (pitch >= -pi / 2) & (pitch <= pi / 2))
     env.holds('yaw in (-pi, pi]', (yaw > -pi) & (yaw <= pi))
     env.safe('defined', e)
+
+
+@obligation('C11.euler.function_form', functions=[f'{CV}:euler', f'{LT}:LieTensor.euler'], max_paths=8, first_path_only=True, no_validate=True)
+def euler_function_form(env):
+    """pp.euler(X, eps) is X.euler(eps): the gimbal-lock threshold of the caller reaches the conversion (keyword and positional), for every
+    ltype the function accepts; by contract in the symbolic mode (LieTensor.euler replaced by a recorder), by value on a rotation whose pitch
+    lies between the caller's threshold and the default one in the concrete twin"""
+    cv = env.load(CV); pp = env.load('pypose'); T = env.T; ltm = env.load(LT)
+    if env.sym:
+        X = lie(pp, 'SO3', env.unitquat('X', regimes=('generic',)))
+        seen = []
+        real = ltm.LieTensor.euler
+        def rec(self, eps=Q(2, 10000)):
+            seen.append(eps); return real(self, eps=eps) if False else T.stack([self.tensor()[0] * 0] * 3)
+        env.stub(ltm.LieTensor, 'euler', rec)
+        e1 = Q(1, 10 ** 6)
+        cv.euler(X, eps=e1); cv.euler(X, e1); cv.euler(X)
+        env.holds('the caller\'s eps reaches LieTensor.euler (keyword)', len(seen) >= 1 and seen[0] == e1)
+        env.holds('the caller\'s eps reaches LieTensor.euler (positional)', len(seen) >= 2 and seen[1] == e1)
+        env.holds('the default is the documented 2e-4', len(seen) >= 3 and seen[2] == Q(2, 10000))
+        return
+    import math
+    pitch = math.asin(1 - 5e-5)                 # between the caller's threshold (1e-6) and the default one (2e-4)
+    q = raw(cv.euler2SO3(T.tensor([0.3, pitch, -0.7], dtype=T.float64)))
+    X = lie(pp, 'SE3', T.cat([T.tensor([0.1, 0.2, 0.3], dtype=T.float64), q]))
+    e1 = 1e-6
+    env.eq('the caller\'s eps reaches LieTensor.euler (keyword)', cv.euler(X, eps=e1), X.euler(eps=e1))
+    env.eq('the caller\'s eps reaches LieTensor.euler (positional)', cv.euler(X, e1), X.euler(eps=e1))
+    env.eq('the default is the documented 2e-4', cv.euler(X), X.euler(eps=2e-4))
 
 
 @obligation('C11.canary.wrong_euler_order', functions=[f'{CV}:euler2SO3'], canary=True)
